@@ -940,6 +940,17 @@ fn rng_pick_ref<'a>(rng: &mut Rng, v: &[&'a Tree]) -> &'a Tree {
 
 // ------------------------------------------------------------------ large shapes (length boundaries)
 
+/// a payload beyond 2^24 bytes between siblings (thorough tier only: 16 MiB per copy)
+pub fn huge_payload_doc() -> Tree {
+    let s: String = std::iter::repeat("0123456789abcdef").take((1 << 20) + 1).collect();
+    Tree::Arr(vec![
+        Tree::Num(Num::U(1)),
+        Tree::Str(s.clone()),
+        Tree::Obj(vec![("k".into(), Tree::Str("after".into())), ("z".into(), Tree::Null)]),
+        Tree::Arr(vec![Tree::Str(s), Tree::Bool(true)]),
+    ])
+}
+
 /// documents whose element counts / payload lengths cross 2^8 and 2^16, so that a narrowing cast
 /// or a one-byte length somewhere in a walker becomes visible
 pub fn big_doc(rng: &mut Rng, huge: bool) -> Tree {
